@@ -276,6 +276,7 @@ class DirectedMultigraph : private LabeledDirectedGraph<EdgeMultiplicity> {
     void clearEdges() {
         for (VertexIndex i : *this)
             adjacencyList[i].clear();
+        edgeLabels.clear();
         edgeNumber = 0;
         totalEdgeNumber = 0;
     }
